@@ -10,6 +10,7 @@ import (
 	"fmt"
 	"net"
 	"strings"
+	"syscall"
 	"testing"
 	"time"
 
@@ -21,8 +22,13 @@ import (
 
 type c05NopConn struct{ closed int }
 
-func (c *c05NopConn) Read(b []byte) (int, error)         { return 0, net.ErrClosed }
-func (c *c05NopConn) Write(b []byte) (int, error)        { return len(b), nil }
+func (c *c05NopConn) Read(b []byte) (int, error) { return 0, net.ErrClosed }
+func (c *c05NopConn) Write(b []byte) (int, error) {
+	if len(b) > 65507 {
+		return 0, &net.OpError{Op: "write", Net: "udp", Err: syscall.EMSGSIZE}
+	}
+	return len(b), nil
+}
 func (c *c05NopConn) Close() error                       { c.closed++; return nil }
 func (c *c05NopConn) LocalAddr() net.Addr                { return &net.TCPAddr{} }
 func (c *c05NopConn) RemoteAddr() net.Addr               { return &net.TCPAddr{} }
@@ -32,7 +38,7 @@ func (c *c05NopConn) SetWriteDeadline(t time.Time) error { return nil }
 
 func c05E2Scenario(c *choice.Ctx, rep *report.R, startQid int, variant int) {
 	nc := &c05NopConn{}
-	t := &PipelineTransport{opts: PipelineOpts{IsTCP: true}, logger: nonNilLogger(nil)}
+	t := &PipelineTransport{opts: PipelineOpts{IsTCP: variant != 3}, logger: nonNilLogger(nil)}
 	ctx, cancel := context.WithCancelCause(context.Background())
 	pc := &pipelineConn{c: nc, t: t, ctx: ctx, cancelCause: cancel, queue: make(map[uint32]chan *dnsmsg.Msg)}
 	// an exchange that has been waiting since the beginning of the connection's life holds id 0
@@ -51,7 +57,7 @@ func c05E2Scenario(c *choice.Ctx, rep *report.R, startQid int, variant int) {
 	var ids []*got
 	holders := map[uint16]int{0: 1}
 	collision := ""
-	worker := func(n int) func() {
+	worker := func(n int, big bool) func() {
 		return func() {
 			for i := 0; i < n; i++ {
 				// what connpool does before handing the connection out
@@ -64,6 +70,16 @@ func c05E2Scenario(c *choice.Ctx, rep *report.R, startQid int, variant int) {
 				g := &got{id: id, err: err, ch: ch}
 				ids = append(ids, g)
 				if err != nil {
+					continue
+				}
+				if big && i == 0 {
+					// this exchange's query does not fit a datagram: the write fails, the exchange ends
+					werr := pc.write(make([]byte, 65520), id)
+					if werr == nil {
+						collision = "an oversize datagram was written"
+					}
+					pc.deleteQueueC(id)
+					g.err = werr
 					continue
 				}
 				holders[id]++
@@ -81,7 +97,7 @@ func c05E2Scenario(c *choice.Ctx, rep *report.R, startQid int, variant int) {
 		}
 	}
 	names := []string{"x1", "x2", "x3"}
-	bodies := []func(){worker(1), worker(1), worker(2)}
+	bodies := []func(){worker(1, variant == 3), worker(1, false), worker(2, false)}
 	if variant == 1 {
 		names = append(names, "closer")
 		bodies = append(bodies, func() { pc.closeWithErr(nil) })
@@ -132,11 +148,11 @@ func TestVerifC05E2(t *testing.T) {
 	defer rep.Write()
 	bound := report.ParamInt("PREEMPTIONS", 3)
 	rep.Rule = fmt.Sprintf("E2: real pipeline_conn.go (sync->vsync) id table; an exchange holds id 0 since the start of the connection; three workers run the pool protocol Status/Reserve/addQueueC/(in flight)/deleteQueueC 1+1+2 times; "+
-		"start states nextQid in {1, 65533, 65534, 65535, 65536} x variants {plain, concurrent closeWithErr, the id-0 exchange returns concurrently}; all interleavings with <=%d preemptions; "+
+		"start states nextQid in {1, 65533, 65534, 65535, 65536} x variants {plain, concurrent closeWithErr, the id-0 exchange returns concurrently, UDP framing with one worker whose query exceeds the datagram size (write fails with EMSGSIZE)}; all interleavings with <=%d preemptions; "+
 		"oracle: no wire id held by two exchanges or handed out twice, the table slot of an id belongs to its exchange, at most one close, an exhausted idle connection is closed, no deadlock", bound)
 	sh, n := report.Shard()
 	for _, q := range []int{1, 65533, 65534, 65535, 65536} {
-		for variant := 0; variant < 3; variant++ {
+		for variant := 0; variant < 4; variant++ {
 			q, variant := q, variant
 			if rp := report.ReplayFile(); rp != nil {
 				var x struct {
